@@ -229,6 +229,21 @@ pub fn run(ctx: &Ctx) {
     for (x, y) in [("v3", "v3-aws-lc"), ("v4", "v4-sodium")] {
         let bx = bs.iter().find(|b| b.name == x).unwrap();
         let by = bs.iter().find(|b| b.name == y).unwrap();
+        // every message length 0..=600: identical tokens for identical key and nonce
+        {
+            let key = g.bytes(32);
+            for len in 0..=600usize {
+                rep.evaluations += 1;
+                let n = g.bytes(32);
+                let msg = content(&mut g, len);
+                let tx = (bx.local_seal_nonce)(&key, n.clone(), &msg, b"footer-10b", b"implicit-12b");
+                let ty = (by.local_seal_nonce)(&key, n.clone(), &msg, b"footer-10b", b"implicit-12b");
+                if tx != ty || tx.is_err() {
+                    rep.violation(&format!("c03.siblings.{x}.local"), format!("{x} and {y} produce different tokens for the same key and nonce ({len}-byte message)"), case_json(x, &key, &n, &msg, b"footer-10b", b"implicit-12b", None));
+                    break;
+                }
+            }
+        }
         for &len in &lens {
             rep.evaluations += 1;
             let key = g.bytes(32);
@@ -255,6 +270,32 @@ pub fn run(ctx: &Ctx) {
         }
         // public: each verifies the other's signatures; deterministic pair byte-identical
         let kps = tok::keypairs(bx, &mut g, 1);
+        // every message length 0..=600 (fixed 10-byte footer, 12-byte assertion): each backend signs, the OTHER one
+        // verifies — a pre-authentication encoding that goes wrong only in some length window is self-consistent
+        // inside one backend and shows only across the pair
+        if let Some(kp) = kps.first() {
+            let step = if ctx.thorough() || x == "v4" { 1 } else { 2 };
+            'sweep: for len in (0..=600usize).step_by(step) {
+                let msg = content(&mut g, len);
+                for (signer, verifier) in [(bx, by), (by, bx)] {
+                    rep.evaluations += 1;
+                    match (signer.public_sign)(&kp.sk, &msg, b"footer-10b", b"implicit-12b", SealVia::Seal) {
+                        Ok(t) => match (verifier.public_verify)(&kp.pk, &t, b"implicit-12b", false) {
+                            Ok((m2, _)) if m2 == msg => {}
+                            other => {
+                                rep.violation(&format!("c03.siblings.{x}.public-accept"), format!("{} rejects {}'s signed token with a {len}-byte message: {:?}", verifier.name, signer.name, other.map(|z| z.0.len())), json!({"token": t, "pk": hex::encode(&kp.pk)}));
+                                break 'sweep;
+                            }
+                        },
+                        Err(e) => {
+                            rep.violation(&format!("c03.siblings.{x}.sign"), format!("{} sign failed for a {len}-byte message: {e}", signer.name), json!({"sk": hex::encode(&kp.sk)}));
+                            break 'sweep;
+                        }
+                    }
+                }
+            }
+            rep.count_n(&format!("siblings.{x}.public.length-sweep"), 601 / step as u64);
+        }
         for kp in &kps {
             for &len in &[0usize, 17, 64] {
                 rep.evaluations += 1;
